@@ -233,6 +233,30 @@ pub fn run(ctx: &Ctx) -> Outcome {
             return out;
         }
     }
+    // both rule days at the same edge of the year with both events thrown into the neighbouring year; rules that tie in some years only
+    {
+        let mut rules = orule::both_edge_rules();
+        let n_edge = rules.len();
+        rules.extend(orule::tie_family_rules());
+        let rr = &rules;
+        let n = 64u64;
+        let rs = par_shards(n, |shard, st| {
+            for (i, rule) in rr.iter().enumerate().skip(shard as usize).step_by(n as usize) {
+                // the tie family is probed over a full 28-year cycle of year types (2000..2036), the edge family over two windows
+                let y0s: &[i64] = if i >= n_edge { &[2000, 2012, 2024] } else { &[1995, 2003] };
+                for &y0 in y0s {
+                    let c = RuleCase { rule: rule.clone(), y0, instants: vec![] };
+                    check_enum("rule", &c, st, check_rule)?;
+                    st.class(if i >= n_edge { "tie_family_rules" } else { "both_days_at_one_year_edge_rules" });
+                }
+            }
+            Ok(())
+        });
+        out.absorb_all(rs);
+        if out.failure.is_some() {
+            return out;
+        }
+    }
     // proptest
     let strat = (gens::arb_rule(), 1600i64..2400, prop_oneof![8 => Just(0i64), 1 => -5368708i64..5368708]).prop_map(|(cr, y, k): (ClassedRule, i64, i64)| RuleCase { rule: cr.rule, y0: y + 400 * k, instants: vec![] });
     let cases = ctx.tier.pick(2_500u32, 40_000u32);
